@@ -4,6 +4,7 @@ import (
 	"context"
 	"errors"
 	"fmt"
+	"log/slog"
 	"strings"
 	"sync"
 	"testing"
@@ -21,7 +22,7 @@ import (
 
 // c19Case: a workload, a state in which Close is issued, and what follows.
 type c19Case struct {
-	// Point: idle | inflight | zk | meta | dial | probe | backoff | dialrefused | zkerror | multistop
+	// Point: idle | inflight | zk | meta | dial | probe | backoff | dialrefused | zkerror | multistop | lookedup
 	Point   string   `json:"point"`
 	Warm    bool     `json:"warm"`            // run a few calls to completion first (connections exist)
 	Callers []opSpec `json:"callers"`         // one call per concurrent caller, in flight at Close
@@ -80,7 +81,15 @@ func c19RunInBubble(c c19Case) (out Outcome) {
 		scanRows = append(scanRows, sim.ScanRow{Key: []byte(k), Cells: 1})
 	}
 	cl.ScanHandler = sim.NewScanServer(scanRows, nil).Handle
-	client := newSimClient(cl, gohbase.RpcQueueSize(c.Queue), gohbase.FlushInterval(time.Duration(c.FlushMS)*time.Millisecond))
+	copts := []gohbase.Option{gohbase.RpcQueueSize(c.Queue), gohbase.FlushInterval(time.Duration(c.FlushMS) * time.Millisecond)}
+	var park *parkingHandler
+	if c.Point == "lookedup" {
+		// an owned scheduling point: the goroutine that has just looked a region up in hbase:meta (and is about
+		// to have a connection established for it) is parked at the client's own debug message
+		park = newParkingHandler("looked up a region")
+		copts = append(copts, gohbase.Logger(slog.New(park)))
+	}
+	client := newSimClient(cl, copts...)
 	stopped := false
 	defer func() {
 		if !stopped {
@@ -162,6 +171,11 @@ func c19RunInBubble(c c19Case) (out Outcome) {
 	case "dialrefused":
 		cl.SetServer("rs2:16020", func(s *sim.ServerState) { s.Down = true })
 		cl.SetServer("rs3:16020", func(s *sim.ServerState) { s.Down = true })
+	case "lookedup":
+		// (hbase:meta itself is known and connected: a lookup for a table that does not exist)
+		g, _ := hrpc.NewGet(context.Background(), []byte("nosuchtable"), []byte("k"))
+		client.Get(g)
+		park.Arm()
 	case "zkerror":
 		// ZooKeeper answers every lookup with an error, before and after Close (quorum unreachable)
 		cl.Lock()
@@ -179,7 +193,7 @@ func c19RunInBubble(c c19Case) (out Outcome) {
 		}
 		cl.Unlock()
 	}
-	if (c.Point == "zkerror" || c.Point == "zk" || c.Point == "meta" || c.Point == "dial" || c.Point == "probe" || c.Point == "dialrefused") && c.Warm {
+	if (c.Point == "lookedup" || c.Point == "zkerror" || c.Point == "zk" || c.Point == "meta" || c.Point == "dial" || c.Point == "probe" || c.Point == "dialrefused") && c.Warm {
 		// the warm connections would serve the calls without any lookup; kill them so that
 		// the calls have to go through establishment again
 		cl.KillConns("rs2:16020")
@@ -282,6 +296,23 @@ func c19RunInBubble(c c19Case) (out Outcome) {
 	}
 	if d := time.Since(closeAt); d != 0 {
 		return viol("close-blocked@"+c.Point, "Close took %v of virtual time", d)
+	}
+	if park != nil {
+		// Close has returned while the lookups' goroutines were parked: whatever they do now happens after Close
+		_, dialsAtClose, _ := cl.Snapshot()
+		parked := park.Parked()
+		park.Release()
+		synctest.Wait()
+		time.Sleep(time.Second)
+		synctest.Wait()
+		_, dialsLater, _ := cl.Snapshot()
+		if parked > 0 && len(dialsLater) > len(dialsAtClose) {
+			d := dialsLater[len(dialsAtClose)]
+			return viol("dial-after-close@lookedup", "%d goroutine(s) had just looked a region up when Close ran (and returned); afterwards the client dialled %s (%s): a closed client opens no connections", parked, d.Addr, d.Result)
+		}
+		if parked > 0 {
+			out.Labels = append(out.Labels, "close_between_lookup_and_establishment")
+		}
 	}
 	// whatever was being waited for now happens (a dial completes, ZooKeeper answers...)
 	if c.ReleaseAfterMS > 0 && c.Point != "backoff" && c.Point != "dial" {
@@ -450,10 +481,14 @@ func c19RunInBubble(c c19Case) (out Outcome) {
 
 func c19Gen(t *rapid.T) c19Case {
 	var c c19Case
-	c.Point = rapid.SampledFrom([]string{"idle", "inflight", "zk", "meta", "dial", "dial", "probe", "backoff", "dialrefused", "zkerror", "multistop"}).Draw(t, "point")
+	c.Point = rapid.SampledFrom([]string{"idle", "inflight", "zk", "meta", "dial", "dial", "probe", "backoff", "dialrefused", "zkerror", "multistop", "lookedup"}).Draw(t, "point")
 	c.Warm = rapid.Bool().Draw(t, "warm")
 	if c.Point == "idle" || c.Point == "multistop" {
 		c.Warm = true
+	}
+	if c.Point == "lookedup" {
+		// (the regions are not known yet: the calls look them up themselves)
+		c.Warm = false
 	}
 	c.Queue = rapid.SampledFrom([]int{1, 2, 100}).Draw(t, "queue")
 	c.FlushMS = rapid.SampledFrom([]int{0, 1, 20}).Draw(t, "flush")
@@ -495,7 +530,8 @@ func TestC19_Close(t *testing.T) {
 			"servers are brought into a chosen state - idle, responses held (in flight), ZooKeeper lookup held, meta scan "+
 			"held, dialer entered and held (before/during dial), region probe held, retry back-off, dial refused "+
 			"repeatedly, ZooKeeper answering every lookup with an error (before and after Close), a connection given up because a multi-response "+
-			"carried a server-stopped exception (and replaced by another one) - with or without previously established connections, optionally with a scanner left open mid-region "+
+			"carried a server-stopped exception (and replaced by another one), a region just looked up in hbase:meta and not yet being established (the looking-up goroutine parked "+
+			"at the client's own debug message through a harness-supplied logger) - with or without previously established connections, optionally with a scanner left open mid-region "+
 			"(with or without a lease renewer); then Close runs (once, twice, or twice "+
 			"concurrently) and 0/1/10/500 virtual ms later the awaited event happens (the dial completes, ZooKeeper "+
 			"answers...). Oracle: Close takes zero virtual time; every in-flight call returns within 100 virtual ms "+
